@@ -5,17 +5,36 @@ ROOT = os.path.dirname(os.path.dirname(os.path.abspath(__file__)))
 WT = "/tmp/wt_seedrun"
 tier = "quick"
 only = None
+shard = None
+jobs = None
 for i, a in enumerate(sys.argv):
     if a == "--tier": tier = sys.argv[i + 1]
     if a == "--only": only = sys.argv[i + 1].split(",")
+    if a == "--shard":  # k/n: every n-th seed starting at k, own worktree and own result file (merge with --merge)
+        shard = tuple(int(x) for x in sys.argv[i + 1].split("/"))
+        WT = "/tmp/wt_seedrun%d" % shard[0]
+    if a == "--jobs": jobs = sys.argv[i + 1]
+if "--merge" in sys.argv:
+    res_path = os.path.join(ROOT, "seeded", "RESULTS.json")
+    results = json.load(open(res_path)) if os.path.exists(res_path) else {}
+    for f in sorted(os.listdir(os.path.join(ROOT, "seeded"))):
+        if f.startswith("RESULTS.shard"):
+            results.update(json.load(open(os.path.join(ROOT, "seeded", f))))
+            os.remove(os.path.join(ROOT, "seeded", f))
+    json.dump(results, open(res_path, "w"), indent=1)
+    print("merged:", len(results), "seeds;", sum(1 for v in results.values() if v.get("detected")), "detected")
+    sys.exit(0)
 def sh(cmd, cwd=None, env=None):
     return subprocess.run(cmd, shell=True, cwd=cwd, env=env, capture_output=True, text=True)
 if not os.path.isdir(WT):
     sh("git -C /repo worktree add -q --detach %s main" % WT)
 sh("git checkout -q -- . && git checkout -q --detach main", cwd=WT)
-res_path = os.path.join(ROOT, "seeded", "RESULTS.json")
+res_path = os.path.join(ROOT, "seeded", "RESULTS.json" if shard is None else "RESULTS.shard%d.json" % shard[0])
 results = json.load(open(res_path)) if os.path.exists(res_path) else {}
-for name in sorted(os.listdir(os.path.join(ROOT, "seeded"))):
+names = [n for n in sorted(os.listdir(os.path.join(ROOT, "seeded"))) if os.path.isdir(os.path.join(ROOT, "seeded", n))]
+if shard is not None:
+    names = names[shard[0]::shard[1]]
+for name in names:
     d = os.path.join(ROOT, "seeded", name)
     if not os.path.isdir(d) or (only and name not in only):
         continue
@@ -29,7 +48,7 @@ for name in sorted(os.listdir(os.path.join(ROOT, "seeded"))):
         continue
     env = dict(os.environ, VERIF_REPO=WT)
     t0 = time.time()
-    r = sh("./vcheck %s --tier %s" % (prop, tier), cwd=ROOT, env=env)
+    r = sh("./vcheck %s --tier %s%s" % (prop, tier, (" --jobs " + jobs) if jobs else ""), cwd=ROOT, env=env)
     lines = [l for l in r.stdout.splitlines() if l.startswith(("VIOLATION", "HARNESS-ERROR", prop + " tier"))]
     viol = [l for l in r.stdout.splitlines() if l.startswith("VIOLATION")]
     detail = []
